@@ -381,6 +381,14 @@ func runC12(p *Prog, r *Report) {
 	// constructor: resetOffset is ±k*twoPi and offset starts at resetOffset
 	okHome := true
 	nHome := 0
+	c12Quanta = map[ssa.Value]bool{}
+	for _, st := range StoresTo(ctor, puT, "twoPi") {
+		c12Quanta[stripConv(st.Val)] = true
+	}
+	homeVals := map[ssa.Value]bool{}
+	for _, st := range StoresTo(ctor, puT, "resetOffset") {
+		homeVals[stripConv(st.Val)] = true
+	}
 	for _, st := range StoresTo(ctor, puT, "resetOffset") {
 		nHome++
 		if !multipleOfField(st.Val, "twoPi") {
@@ -390,7 +398,7 @@ func runC12(p *Prog, r *Report) {
 	r.Check(okHome && nHome >= 1, "C12.R2", "the home offset is a whole number of quanta", p.Pos(ctor.Pos()), fmt.Sprintf("%d stores, all multiples of twoPi", nHome), "the constructor sets the home offset to something other than a multiple of the quantum")
 	okInit := false
 	for _, st := range StoresTo(ctor, puT, "offset") {
-		if puField(stripConv(st.Val)) == "resetOffset" {
+		if puField(stripConv(st.Val)) == "resetOffset" || homeVals[stripConv(st.Val)] {
 			okInit = true
 		}
 	}
@@ -678,10 +686,22 @@ func paramDeps(fn *ssa.Function, v ssa.Value) map[string]bool {
 }
 
 // multipleOfField: v is (a conversion of) the field, or a constant times it.
+// c12Quanta: the values stored into the quantum field in the function under analysis (a multiple
+// of the quantum may be written in terms of the local the field was set from).
+var c12Quanta = map[ssa.Value]bool{}
+
 func multipleOfField(v ssa.Value, field string) bool {
 	v = stripConv(v)
-	if puField(v) == field {
+	if puField(v) == field || c12Quanta[v] {
 		return true
+	}
+	if ph, ok := v.(*ssa.Phi); ok {
+		for _, e := range ph.Edges {
+			if !multipleOfField(e, field) {
+				return false
+			}
+		}
+		return len(ph.Edges) > 0
 	}
 	if bo, ok := v.(*ssa.BinOp); ok && bo.Op == token.MUL {
 		if _, isC := constInt(bo.X); isC {
